@@ -461,6 +461,41 @@ def check_level0_closure(ctx):
                     what="a file is left out iff it ends before the range or starts after it")
 
 
+def check_range_fold(ctx):
+    """The key range of a set of compaction inputs is the minimum of the
+    files' smallest keys and the maximum of their largest keys: each running
+    bound is replaced only by the same field of a file that compares strictly
+    beyond it.  (A too-small range leaves overlapping next-level files out of
+    the compaction, and two overlapping tables of one level hide each other.)"""
+    P = ctx.P
+    rows = [("ldb_versions_get_range", "small", "smallest", "<", "inputs->length"),
+            ("ldb_versions_get_range", "large", "largest", ">", "inputs->length"),
+            ("find_largest_key", "large", "largest", ">", "files->length")]
+    for fname, var, field, sign, bound in rows:
+        f = ctx.fn(fname, VS)
+        g = xgraph(P, f)
+        sts = [(b, i, e) for (b, i, e) in f.events("asg") if key(e["lhs"]) == var and const_val(e["rhs"]) is None]
+        ctx.require(len(sts) >= 1, "%s: running bound `%s` not found" % (fname, var))
+        for b, i, e in sts:
+            atoms = g.must_at(b, i)
+            same = key(e["rhs"]) == "(&f->%s)" % field
+            first = holds(atoms, ("==", "i", "0"))
+            beyond = holds(atoms, (sign, "re:.*compare.*\\(&f->%s\\), %s\\)#\\d+" % (field, var), "0"))
+            ctx.check(same and (first or beyond) and holds(atoms, ("<", "i", bound)), "T8-range-fold",
+                      "%s:%s@%s" % (fname, var, e["l"].split(":")[1]), f.name, site(f, e),
+                      "`%s` becomes a file's %s key only for the first file or when that key lies strictly beyond it" % (var, field),
+                      "running bound `%s` is set to %s under %s" % (var, key(e["rhs"]), fmt_atoms(atoms)),
+                      subject="%s:%s" % (fname, var))
+    f = ctx.fn("ldb_versions_get_range", VS)
+    outs = {key(e["lhs"]): key(e["rhs"]) for b, i, e in f.events("asg") if key(e["lhs"]).startswith("(*")}
+    ctx.check(outs.get("(*smallest)") == "(*small)" and outs.get("(*largest)") == "(*large)", "T8-range-fold", "get_range:outputs", f.name, f.loc,
+              "the folded bounds are the reported range", "reported range is %s" % outs)
+    f2 = ctx.fn("ldb_versions_get_range2", VS)
+    cp = [(key(e["lhs"]), key(e["rhs"])) for b, i, e in f2.events("asg") if key(e["lhs"]).startswith("all.items[")]
+    ctx.check(sorted(r for l, r in cp) == ["inputs1->items[i]", "inputs2->items[i]"], "T8-range-fold", "get_range2:both-sets", f2.name, f2.loc,
+              "the joint range covers both input sets", "joint range built from %s" % cp)
+
+
 def check_pick_level0_closure(ctx):
     """Every automatically picked level-0 compaction (size- or seek-triggered)
     takes the transitive closure of overlapping level-0 files before its
@@ -615,6 +650,7 @@ def check_table_get(ctx):
 
 
 def check(ctx):
+    check_range_fold(ctx)
     check_pick_level0_closure(ctx)
     check_get(ctx)
     check_version_get(ctx)
